@@ -2,7 +2,8 @@
 # confirm_seeded.sh <ID> <name>   -- re-check an agent's change in its worktree /tmp/wt/<ID> and store it as /verif/seeded/<name>/
 c=$1; name=$2; w=/tmp/wt/$c
 cd $w || exit 2
-echo "== $c: patch applies to clean HEAD?"; git stash -q; git apply --check patch.diff && echo yes; git stash pop -q
+# (no git stash here: the stash is shared between all worktrees of a repository)
+echo "== $c: worktree diff == patch.diff, and it reverse-applies?"; git diff -- . ':!patch.diff' | diff -q - patch.diff >/dev/null && git apply --check -R patch.diff && echo yes
 echo "== suite with the change:"; CARGO_TARGET_DIR=$w/target CARGO_NET_OFFLINE=true cargo nextest run --workspace --no-fail-fast --test-threads 8 --offline 2>&1 | grep -E "Summary|^\s+FAIL" | sort -u | head -12
 if [ -f xcp.orig ]; then
   ./demo.sh $w/xcp.orig > $w.demo.orig.out 2>&1; echo "demo orig -> $?"
